@@ -16,6 +16,7 @@ case "$which" in
   mirror)  test=TestStandinMirror;  obl="regexp2.executeDefault#bounded-standin-mirror";;
   case)    test=TestStandinCase;    obl="regexp2.executeDefault#bounded-standin-case";;
   replace) test=TestStandinReplace; obl="regexp2.replace#bounded-standin";;
+  groups)  test=TestStandinGroups;  obl="syntax.parser#bounded-standin-groups";;
   *) echo "ENGINE-ERROR unknown stand-in $which"; exit 2;;
 esac
 export STANDIN_KNOWN=$(python3 - "$HERE/known_findings.json" "$prop" "$obl" <<'PY'
@@ -26,7 +27,7 @@ print("\n".join(f["standin_pattern"] for f in d.get("findings",[]) if f.get("pro
 PY
 )
 tmp=$(mktemp -d); trap 'rm -rf "$tmp"' EXIT
-printf '{"Replace":{"%s/zz_verif_standin_test.go":"%s/standins/facts_standin_test.go","%s/zz_verif_standin2_test.go":"%s/standins/exec_standin_test.go","%s/zz_verif_standin3_test.go":"%s/standins/repl_standin_test.go"}}' "$REPO" "$HERE" "$REPO" "$HERE" "$REPO" "$HERE" > "$tmp/ov.json"
+printf '{"Replace":{"%s/zz_verif_standin_test.go":"%s/standins/facts_standin_test.go","%s/zz_verif_standin2_test.go":"%s/standins/exec_standin_test.go","%s/zz_verif_standin3_test.go":"%s/standins/repl_standin_test.go","%s/zz_verif_standin4_test.go":"%s/standins/groups_standin_test.go"}}' "$REPO" "$HERE" "$REPO" "$HERE" "$REPO" "$HERE" "$REPO" "$HERE" > "$tmp/ov.json"
 t0=$(date +%s.%N)
 res=$(cd "$REPO" && go test -tags verif -overlay "$tmp/ov.json" -vet=off -count=1 -timeout 7000s -v -run "$test\$" . 2>&1)
 rc=$?
@@ -64,6 +65,10 @@ if which=="mirror":
     rec={"function":"executeDefault (right-to-left arms against left-to-right arms), with the parser/reducer/writer in front of it",
      "bound":"%d patterns from an abstract syntax with a mirror operation (items = atom a b [ab] [^a] . \\w - \\d x quantifier none * + ? *? +? {2} {1,2} ??; 1-2 items, 3-item sequences and alternations over %s, literals before/after an item, quantified groups, named captures (nested, alternated, looped), atomic groups, ^ $ \\A \\z \\b \\B \\G, the four lookarounds, named backreferences); options None, IgnoreCase, Multiline%s; every text over {a,b,-,1} (over {a,-,\\n} for Multiline) of length 0..%d plus 8 longer texts; every start offset; both directions of the pair"%(pats,"20 items" if lvl>=2 else "12 items",", Singleline|Multiline, IgnoreCase|Multiline, ExplicitCapture" if lvl>=2 else "",n),
      "checks":"find(mirror(P), RightToLeft, reverse(text), n-s) is the mirror image of find(P, text, s): both fail or index' = n-index-length, same length, every capture of every named group mirrored, in the same order"}
+elif which=="groups":
+    rec={"function":"the parser's capture numbering (countCaptures, scanGroupOpen, noteCaptureSlot, noteCaptureName, assignNameSlots, assignOrderedNameSlots) and the tables the writer derives from it",
+     "bound":"%d patterns: every sequence of 1..%d groups of the kinds unnamed, named n, named m, numbered 2, numbered 5, non-capturing, (?P<n>, flat and with the first or second group wrapping its successor, group i matching its own letter; modes default, ExplicitCapture, RE2, ECMAScript, MaintainCaptureOrder, RE2+MaintainCaptureOrder, RightToLeft, IgnoreCase+MaintainCaptureOrder"%(pats,4 if lvl>=2 else 3),
+     "checks":"numbers and names are those of the documented rule and each number holds the text of the parentheses the rule assigns to it; GetGroupNames/GetGroupNumbers/GroupNameFromNumber/GroupNumberFromName agree and numbers ascend; Match.Groups is in table order with the table's names and GroupByName/GroupByNumber return those groups; \\k<name> and \\number re-match exactly the group's text; ${name} and ${number} expand to it"}
 elif which=="replace":
     rec={"function":"replace, replaceRunnerLTR, replaceRunnerRTL (Replace / ReplaceFunc drivers) and the piece structure of Split",
      "bound":"%d patterns (items over a b [ab] [^a] . \\w - with quantifiers none * + ? *? +? {2}; pairs and alternations of 16 items; four capture shapes with an unnamed group 1 and a named group A%s; empty-matching and anchor-only patterns; balancing and optional groups), both directions; every text over {a,b,-} of length 0..%d plus 7 texts with 2- and 4-byte runes; startAt -1, middle, end%s; count -1, 0, 1, 2; replacements of one or two tokens out of x, empty, $&, $`, $', $_, $$, [, ${0}, and for patterns with groups ${1}, ${A}, $+, $1-"%(pats,"; anchors, lookarounds, backreference" if lvl>=2 else "",n," (thorough: every rune boundary)" if lvl>=2 else ""),
